@@ -113,7 +113,7 @@ fn run(tier: String) -> i32 {
     ctx.extra.insert("sweep_instances".into(), json!(sweep.len()));
     ctx.run_enum(&ep, chunk(&sweep, 3000).into_iter().map(|insts| Batch { insts }).collect());
     drop(sweep);
-    let cases = ctx.n(40, 40 * 25);
+    let cases = ctx.n(40, 40 * 60);
     // a generated instance consumes about 8 choices
     ctx.run_search(&ep, cases, batch * 9, 0);
 
@@ -123,7 +123,7 @@ fn run(tier: String) -> i32 {
     ctx.run_known_reproducers(&lp);
     ctx.run_enum(&lp, chunk(&labels::directed_set(), 24).into_iter().map(|progs| PBatch { progs }).collect());
     ctx.run_enum(&lp, labels::directed_set_far(ctx.thorough()).into_iter().map(|p| PBatch { progs: vec![p] }).collect());
-    let cases = ctx.n(32, 32 * 25);
+    let cases = ctx.n(32, 32 * 40);
     ctx.run_search(&lp, cases, 48 * 60, 0);
 
     // ---- helper predicates
